@@ -1,5 +1,6 @@
 import os
 import gzip
+import signal
 import logging
 import pysyncobj.pickle as pickle
 
@@ -194,6 +195,7 @@ class Serializer(object):
         if isLast:
             self.__incomingTransmissionFile.close()
             self.__incomingTransmissionFile = None
+            self.__stopSerializingChild()
             try:
                 atomicReplace(tmpFile, self.__fileName)
             except:
@@ -201,6 +203,22 @@ class Serializer(object):
                 return False
             return True
         return False
+
+    def __stopSerializingChild(self):
+        # The received snapshot is newer than the one a child process may still be writing:
+        # that child must not replace the dump file afterwards.
+        pid = self.__pid
+        if pid <= 0:
+            return
+        try:
+            os.kill(pid, signal.SIGKILL)
+        except OSError:
+            pass
+        try:
+            os.waitpid(pid, 0)
+        except OSError:
+            pass
+        self.__pid = 0
 
     def cancelTransmisstion(self, id):
         self.__transmissions.pop(id, None)
